@@ -110,7 +110,10 @@ def flushObj (sch : Schema) (w : World) (o : ObjId) (ids : List Int) : FRes :=
       match ob.pk with
       | some k => go k none ids
       | none => match ids with
-          | [] => ⟨w, some .badOp, ids, false⟩
+          | [] =>
+              -- no id was generated: the INSERT itself was refused (a key tuple is taken; the generated id is always fresh)
+              if w.txn.any (keyClash sch (objRow ob [])) then ⟨{ w with inTxn := true, immediate := true }, some .txnIntegrity, ids, false⟩
+              else ⟨w, some .badOp, ids, false⟩
           | id :: r => go [id] (some id) r
   | .modified =>
       match ob.pk with
